@@ -258,7 +258,7 @@ func run(c *core.Case) {
 				ks[41+r.Int64N(h-40)] = true
 			}
 		} else {
-			for i := 0; i < 2 && h > 2; i++ {
+			if h > 2 {
 				ks[2+r.Int64N(h-2)] = true
 			}
 		}
@@ -271,7 +271,7 @@ func run(c *core.Case) {
 			points = append(points, crashPoint{s, k})
 		}
 	}
-	nAny := 6
+	nAny := 4
 	if c.Tier == core.Thorough {
 		nAny = 40
 	}
